@@ -101,7 +101,10 @@ func (s *storeMemoizer) GraphNames(ctx context.Context, names chan<- string) err
 type graphMemoizer struct {
 	g storage.Graph
 
-	mu   sync.RWMutex
+	mu sync.RWMutex
+	// gen counts the update operations. A lookup only memoizes its results if
+	// no update started since it checked the cache.
+	gen  uint64
 	memN map[string][]*node.Node
 	memP map[string][]*predicate.Predicate
 	memO map[string][]*triple.Object
@@ -117,14 +120,17 @@ func (g *graphMemoizer) ID(ctx context.Context) string {
 // AddTriples adds the triples to the storage. Adding a triple that already
 // exists should not fail.
 func (g *graphMemoizer) AddTriples(ctx context.Context, ts []*triple.Triple) error {
+	// Update operations reset the memoization. The lock is kept until the
+	// update has been forwarded: otherwise a concurrent lookup could memoize,
+	// or replay, results computed before the update after it took place.
 	g.mu.Lock()
-	// Update operations reset the memoization.
+	defer g.mu.Unlock()
+	g.gen++
 	g.memN = make(map[string][]*node.Node)
 	g.memP = make(map[string][]*predicate.Predicate)
 	g.memO = make(map[string][]*triple.Object)
 	g.memT = make(map[string][]*triple.Triple)
 	g.memE = make(map[string]bool)
-	g.mu.Unlock()
 	verifYield("write.cleared")
 
 	return g.g.AddTriples(ctx, ts)
@@ -133,14 +139,17 @@ func (g *graphMemoizer) AddTriples(ctx context.Context, ts []*triple.Triple) err
 // RemoveTriples removes the triples from the storage. Removing triples that
 // are not present on the store should not fail.
 func (g *graphMemoizer) RemoveTriples(ctx context.Context, ts []*triple.Triple) error {
+	// Update operations reset the memoization. The lock is kept until the
+	// update has been forwarded: otherwise a concurrent lookup could memoize,
+	// or replay, results computed before the update after it took place.
 	g.mu.Lock()
-	// Update operations reset the memoization.
+	defer g.mu.Unlock()
+	g.gen++
 	g.memN = make(map[string][]*node.Node)
 	g.memP = make(map[string][]*predicate.Predicate)
 	g.memO = make(map[string][]*triple.Object)
 	g.memT = make(map[string][]*triple.Triple)
 	g.memE = make(map[string]bool)
-	g.mu.Unlock()
 	verifYield("write.cleared")
 
 	return g.g.RemoveTriples(ctx, ts)
@@ -182,6 +191,7 @@ func (g *graphMemoizer) Objects(ctx context.Context, s *node.Node, p *predicate.
 	k := combinedUUID("Objects", lo, s.UUID(), p.UUID())
 	g.mu.RLock()
 	v := g.memO[k]
+	gen := g.gen
 	g.mu.RUnlock()
 	if v != nil {
 		// Return the memoized results.
@@ -227,7 +237,9 @@ func (g *graphMemoizer) Objects(ctx context.Context, s *node.Node, p *predicate.
 	if err == nil {
 		// Only complete results are memoized.
 		g.mu.Lock()
-		g.memO[k] = mobjs
+		if gen == g.gen {
+			g.memO[k] = mobjs
+		}
 		g.mu.Unlock()
 	}
 	return err
@@ -256,6 +268,7 @@ func (g *graphMemoizer) Subjects(ctx context.Context, p *predicate.Predicate, o 
 	k := combinedUUID("Subjects", lo, p.UUID(), o.UUID())
 	g.mu.RLock()
 	v := g.memN[k]
+	gen := g.gen
 	g.mu.RUnlock()
 	if v != nil {
 		// Return the memoized results.
@@ -301,7 +314,9 @@ func (g *graphMemoizer) Subjects(ctx context.Context, p *predicate.Predicate, o 
 	if err == nil {
 		// Only complete results are memoized.
 		g.mu.Lock()
-		g.memN[k] = msubs
+		if gen == g.gen {
+			g.memN[k] = msubs
+		}
 		g.mu.Unlock()
 	}
 	return err
@@ -320,6 +335,7 @@ func (g *graphMemoizer) PredicatesForSubject(ctx context.Context, s *node.Node, 
 	k := combinedUUID("PredicatesForSubject", lo, s.UUID())
 	g.mu.RLock()
 	v := g.memP[k]
+	gen := g.gen
 	g.mu.RUnlock()
 	if v != nil {
 		// Return the memoized results.
@@ -365,7 +381,9 @@ func (g *graphMemoizer) PredicatesForSubject(ctx context.Context, s *node.Node, 
 	if err == nil {
 		// Only complete results are memoized.
 		g.mu.Lock()
-		g.memP[k] = mpreds
+		if gen == g.gen {
+			g.memP[k] = mpreds
+		}
 		g.mu.Unlock()
 	}
 	return err
@@ -384,6 +402,7 @@ func (g *graphMemoizer) PredicatesForObject(ctx context.Context, o *triple.Objec
 	k := combinedUUID("PredicatesForObject", lo, o.UUID())
 	g.mu.RLock()
 	v := g.memP[k]
+	gen := g.gen
 	g.mu.RUnlock()
 	if v != nil {
 		// Return the memoized results.
@@ -429,7 +448,9 @@ func (g *graphMemoizer) PredicatesForObject(ctx context.Context, o *triple.Objec
 	if err == nil {
 		// Only complete results are memoized.
 		g.mu.Lock()
-		g.memP[k] = mpreds
+		if gen == g.gen {
+			g.memP[k] = mpreds
+		}
 		g.mu.Unlock()
 	}
 	return err
@@ -448,6 +469,7 @@ func (g *graphMemoizer) PredicatesForSubjectAndObject(ctx context.Context, s *no
 	k := combinedUUID("PredicatesForSubjectAndObject", lo, s.UUID(), o.UUID())
 	g.mu.RLock()
 	v := g.memP[k]
+	gen := g.gen
 	g.mu.RUnlock()
 	if v != nil {
 		// Return the memoized results.
@@ -493,7 +515,9 @@ func (g *graphMemoizer) PredicatesForSubjectAndObject(ctx context.Context, s *no
 	if err == nil {
 		// Only complete results are memoized.
 		g.mu.Lock()
-		g.memP[k] = mpreds
+		if gen == g.gen {
+			g.memP[k] = mpreds
+		}
 		g.mu.Unlock()
 	}
 	return err
@@ -512,6 +536,7 @@ func (g *graphMemoizer) TriplesForSubject(ctx context.Context, s *node.Node, lo 
 	k := combinedUUID("TriplesForSubject", lo, s.UUID())
 	g.mu.RLock()
 	v := g.memT[k]
+	gen := g.gen
 	g.mu.RUnlock()
 	if v != nil {
 		// Return the memoized results.
@@ -557,7 +582,9 @@ func (g *graphMemoizer) TriplesForSubject(ctx context.Context, s *node.Node, lo 
 	if err == nil {
 		// Only complete results are memoized.
 		g.mu.Lock()
-		g.memT[k] = mts
+		if gen == g.gen {
+			g.memT[k] = mts
+		}
 		g.mu.Unlock()
 	}
 	return err
@@ -576,6 +603,7 @@ func (g *graphMemoizer) TriplesForPredicate(ctx context.Context, p *predicate.Pr
 	k := combinedUUID("TriplesForPredicate", lo, p.UUID())
 	g.mu.RLock()
 	v := g.memT[k]
+	gen := g.gen
 	g.mu.RUnlock()
 	if v != nil {
 		// Return the memoized results.
@@ -621,7 +649,9 @@ func (g *graphMemoizer) TriplesForPredicate(ctx context.Context, p *predicate.Pr
 	if err == nil {
 		// Only complete results are memoized.
 		g.mu.Lock()
-		g.memT[k] = mts
+		if gen == g.gen {
+			g.memT[k] = mts
+		}
 		g.mu.Unlock()
 	}
 	return err
@@ -640,6 +670,7 @@ func (g *graphMemoizer) TriplesForObject(ctx context.Context, o *triple.Object, 
 	k := combinedUUID("TriplesForObject", lo, o.UUID())
 	g.mu.RLock()
 	v := g.memT[k]
+	gen := g.gen
 	g.mu.RUnlock()
 	if v != nil {
 		// Return the memoized results.
@@ -685,7 +716,9 @@ func (g *graphMemoizer) TriplesForObject(ctx context.Context, o *triple.Object, 
 	if err == nil {
 		// Only complete results are memoized.
 		g.mu.Lock()
-		g.memT[k] = mts
+		if gen == g.gen {
+			g.memT[k] = mts
+		}
 		g.mu.Unlock()
 	}
 	return err
@@ -704,6 +737,7 @@ func (g *graphMemoizer) TriplesForSubjectAndPredicate(ctx context.Context, s *no
 	k := combinedUUID("TriplesForSubjectAndPredicate", lo, s.UUID(), p.UUID())
 	g.mu.RLock()
 	v := g.memT[k]
+	gen := g.gen
 	g.mu.RUnlock()
 	if v != nil {
 		// Return the memoized results.
@@ -749,7 +783,9 @@ func (g *graphMemoizer) TriplesForSubjectAndPredicate(ctx context.Context, s *no
 	if err == nil {
 		// Only complete results are memoized.
 		g.mu.Lock()
-		g.memT[k] = mts
+		if gen == g.gen {
+			g.memT[k] = mts
+		}
 		g.mu.Unlock()
 	}
 	return err
@@ -768,6 +804,7 @@ func (g *graphMemoizer) TriplesForPredicateAndObject(ctx context.Context, p *pre
 	k := combinedUUID("TriplesForPredicateAndObject", lo, p.UUID(), o.UUID())
 	g.mu.RLock()
 	v := g.memT[k]
+	gen := g.gen
 	g.mu.RUnlock()
 	if v != nil {
 		// Return the memoized results.
@@ -813,7 +850,9 @@ func (g *graphMemoizer) TriplesForPredicateAndObject(ctx context.Context, p *pre
 	if err == nil {
 		// Only complete results are memoized.
 		g.mu.Lock()
-		g.memT[k] = mts
+		if gen == g.gen {
+			g.memT[k] = mts
+		}
 		g.mu.Unlock()
 	}
 	return err
@@ -824,6 +863,7 @@ func (g *graphMemoizer) Exist(ctx context.Context, t *triple.Triple) (bool, erro
 	k := combinedUUID("Exist", storage.DefaultLookup, t.UUID())
 	g.mu.RLock()
 	v, ok := g.memE[k]
+	gen := g.gen
 	g.mu.RUnlock()
 	if ok {
 		// Return the memoized results.
@@ -836,7 +876,9 @@ func (g *graphMemoizer) Exist(ctx context.Context, t *triple.Triple) (bool, erro
 	verifYield("read.fill")
 	if err == nil {
 		g.mu.Lock()
-		g.memE[k] = b
+		if gen == g.gen {
+			g.memE[k] = b
+		}
 		g.mu.Unlock()
 	}
 	return b, err
@@ -849,6 +891,7 @@ func (g *graphMemoizer) Triples(ctx context.Context, lo *storage.LookupOptions, 
 	k := combinedUUID("Triples", lo)
 	g.mu.RLock()
 	v := g.memT[k]
+	gen := g.gen
 	g.mu.RUnlock()
 	if v != nil {
 		// Return the memoized results.
@@ -894,7 +937,9 @@ func (g *graphMemoizer) Triples(ctx context.Context, lo *storage.LookupOptions, 
 	if err == nil {
 		// Only complete results are memoized.
 		g.mu.Lock()
-		g.memT[k] = mts
+		if gen == g.gen {
+			g.memT[k] = mts
+		}
 		g.mu.Unlock()
 	}
 	return err
